@@ -211,7 +211,7 @@ Qed.
 Theorem step_keeps_inv h o : holder_ok h -> holder_ok (o_holder (step g h o)).
 Proof.
   intros Hok. unfold step. destruct (step_core g h o) as [[[r tr] p] h'] eqn:E. cbn [o_holder].
-  destruct o as [s c|c| |e pl orc b|e pl orc b|x v|x v|x v|s| |]; cbn [step_core] in E.
+  destruct o as [s c|c| |e pl orc b|e pl orc b|x v|x v|x v|s| | |e pl]; cbn [step_core] in E.
   - destruct (typed_new g s c) as [tm|] eqn:Et; inversion E; subst; [|exact Hok].
     cbn. exact (proj1 (typed_new_ok _ _ _ Et)).
   - destruct (gr_dyn g) as [gd|]; [|inversion E; subst; exact Hok].
@@ -267,6 +267,10 @@ Proof.
   - destruct h as [|tm|dd]; try (inversion E; subst; exact Hok).
     destruct (gr_dyn g); inversion E; subst; exact Hok.
   - inversion E; subst. exact I.
+  - destruct h as [|tm|dd]; try (inversion E; subst; exact Hok).
+    + destruct (methods_of g (tm_state tm) (to_snake_case e)) as [|gm [|gm2 rr]]; try (inversion E; subst; exact Hok).
+      destruct (gm_async gm); inversion E; subst; [exact I|exact Hok].
+    + destruct (gr_dyn g); [destruct (gir_async g)|]; inversion E; subst; exact Hok.
 Qed.
 
 Theorem history_keeps_inv ops : forall h, holder_ok h -> Forall (fun ob => holder_ok (o_holder ob)) (run_script g h ops).
